@@ -143,8 +143,10 @@ def handleSigPair (args obs : List String) : Verdict :=
         -- property: identical writing accepted; structurally different refused with a signature panic,
         -- before anything is modified
         let same := da == db
-        let pOk := lv || ((if same then out == "accept" else out == "sigpanic") &&
-                          (out == "accept" || (kv obs "restored" == some "1" && kv obs "guards" == some "0")))
+        -- `os` = OS calls the library made during the attempt: a refusal must precede all of them
+        let untouched := kv obs "restored" == some "1" && kv obs "guards" == some "0" &&
+                         (kv obs "os" == none || kv obs "os" == some "0")
+        let pOk := lv || ((if same then out == "accept" else out == "sigpanic") && (out == "accept" || untouched))
         { agree := agree, propOk := pOk,
           branch := "sigpair-" ++ form ++ (if lv then "+lifetime-only" else if same then "+same" else "+different"),
           detail := (if agree then "" else "model=" ++ (if mAccept then "accept" else "refuse")) ++
@@ -200,7 +202,7 @@ def handleBoolGate (args obs : List String) : Verdict :=
       let m := boolGate (renderFn f)
       let isBool := match f.ret with | Ty.prim 0 => true | _ => false
       let want := if isBool then "accept" else "sigpanic"
-      let pOk := out == want && (out == "accept" || kv obs "restored" == some "1")
+      let pOk := out == want && (out == "accept" || (kv obs "restored" == some "1" && (kv obs "os" == none || kv obs "os" == some "0")))
       { agree := out == (if m then "accept" else "sigpanic"), propOk := pOk,
         branch := "boolgate" ++ (if isBool then "+bool" else "+other"),
         detail := (if out == (if m then "accept" else "sigpanic") then "" else "model=" ++ toString m) ++
